@@ -386,11 +386,18 @@ func (x *Exec) havocValue(cur Value, t types.Type, name string) Value {
 				return ns
 			}
 		}
-		x.notes["havoc-kept-slice:"+name] = true
-		return cv
+		// a slice of non-scalars: length, capacity and nil-ness arbitrary, the elements not tracked
+		var et types.Type
+		if t != nil {
+			if sl, ok := t.Underlying().(*types.Slice); ok {
+				et = sl.Elem()
+			}
+		}
+		return x.untrackedSeq(name, et)
 	case PtrV:
-		x.notes["havoc-kept-pointer:"+name] = true
-		return cv
+		// a pointer that may have been assigned: nothing is known about where it points
+		x.notes["havocked-pointer:"+name] = true
+		return UnknownV{t, "pointer assigned in a loop or by a callee (" + name + ")"}
 	case IfaceV:
 		return IfaceV{Nil: Fresh(name+"!nil", BoolSort), Tag: "opaque"}
 	case ArrayRef:
@@ -399,6 +406,18 @@ func (x *Exec) havocValue(cur Value, t types.Type, name string) Value {
 		return cv
 	}
 	return cur
+}
+
+// untrackedSeq is a slice value whose length is arbitrary and whose elements are not tracked
+// (loads give unknown values: any use that matters leaves the subset).
+func (x *Exec) untrackedSeq(name string, elem types.Type) SliceV {
+	o := x.newObject(elem, name)
+	x.st.heap.m[o] = UnknownV{elem, "elements of a sequence that are not tracked (" + name + ")"}
+	ln := Fresh(name+"!len", BV(64))
+	cp := Fresh(name+"!cap", BV(64))
+	nl := Fresh(name+"!nil", BoolSort)
+	x.assume(And(BvUle(ln, cp), BvUle(cp, BVU(1<<maxLenBits, 64)), Imp(nl, Eq(cp, bv64(0)))))
+	return SliceV{Obj: o, Off: bv64(0), Len: ln, Cap: cp, Nil: nl}
 }
 
 func (x *Exec) freshSymSliceNoInput(name string, w int, elem types.Type) SliceV {
